@@ -26,9 +26,10 @@
 //     This is the one malleability that Floodgate's own transport has: the JDK decoder (like
 //     Go's non-strict one) does not check the unused low bits of the last Base64 unit, so
 //     e.g. "...QQ==" and "...QR==" are two spellings of the same authenticated ciphertext.
-//     The *data* (IV, ciphertext, tag, hence every field) is unaltered; counted in the
-//     evidence as accepted_java_equivalent_spelling. Demanding rejection here would demand
-//     more than Floodgate delivers and is not what "authentic" protects.
+//     An earlier version of this monitor let these pass ("more than Floodgate delivers").
+//     The statement, however, says "altered in any byte is rejected", Gate decodes strictly
+//     (fix 96dfe51) and does reject them, and a seeded change that dropped the strictness
+//     went unseen; they are now a violation (…:noncanonical-base64-spelling:<where>).
 //   - Gate accepts and returns fields different from the original record       -> VIOLATION.
 //   - Gate documents the hostname as  original\x00data[:port] . Bytes after the first ':' of
 //     the second item are, by that framing, not part of the data; a mutant whose data part is
@@ -384,8 +385,16 @@ func (w *worker) judgeHost(m *message, host string, class string) {
 		w.violation("ReadHostname-accepted-mutant-decodes-different-fields:"+d, "an accepted mutant decoded to fields other than the original ones", wit(nil))
 		return
 	}
+	// The statement is literal: "data ... altered in any byte is rejected". The data part of
+	// this hostname differs from what the encoder produced and Gate accepted it. That the JDK
+	// decoder shares the malleability (unused low bits of the last Base64 unit, optional
+	// padding) does not make the bytes unaltered; Gate decodes strictly since fix 96dfe51 and
+	// rejects every such spelling, so correct code passes this clause.
 	w.count("accepted_java_equivalent_spelling", 1)
-	w.count("accepted_java_equivalent_spelling:"+diffKind(m, data), 1)
+	kind := diffKind(m, data)
+	w.violationf("ReadHostname-accepts-altered-data:noncanonical-base64-spelling:"+kind, func() string {
+		return fmt.Sprintf("Gate accepted data that differs from the encoder's output in %s (it decodes to the same ciphertext only because unused Base64 bits / padding are not checked); mutation class %s", kind, class)
+	}, wit(nil))
 }
 
 func (w *worker) judge(m *message, mut []byte, class string) {
@@ -776,7 +785,7 @@ func TestC39(t *testing.T) {
 	defer r.Finish()
 	r.Rule("a message = (key of 16/24/32 bytes, 12 field BedrockData record with empty/Unicode/long/':' fields, original host, 12 byte IV), encoded by the reference Floodgate codec (3 of 4) or by Gate (1 of 4); cases = the message itself (A ref->Gate, B Gate->ref, C other keys) plus every mutant of its encoded data: all 255 substitutions at every byte position, insertions of 20 (every 16th message: 256) byte values at every position, deletions of 1/2/4 bytes at every position, every prefix/suffix, structural mutants (header, version byte, splitter moved to every position, swapped halves, IVs of other lengths, padding/whitespace/line-wrapping/url-safe spellings, appended/prepended bytes), every raw bit flip of iv|ciphertext|tag re-encoded canonically, splices with another message, hostname framing variants, random data behind a valid header; distinct = (message, mutation position/class)")
 	r.Assume("ref/floodgateref transcribes Floodgate's AesCipher, Base64Topping (java.util.Base64 basic decoder: no whitespace, optional padding, trailing bits unchecked), FloodgateCipher header/version check and BedrockData.fromString from memory; AES-GCM itself is crypto/aes+crypto/cipher on both sides")
-	r.Assume("an accepted mutant is a violation unless Floodgate's decoder accepts the same bytes to the same plaintext (non-canonical trailing Base64 bits) or the bytes Gate's documented framing original\\x00data[:port] treats as data are unaltered")
+	r.Assume("an accepted mutant is a violation unless the bytes Gate's documented framing original\\x00data[:port] treats as data are unaltered")
 
 	nExh := r.N(200, 4000) // messages with exhaustive substitution
 	nLight := r.N(120, 2000)
